@@ -53,6 +53,10 @@ def generatedSignatures : List (String × String) :=
   (Gen.vulnAll.filterMap fun p => (signatureLine (vulnCategory.sectionLines p)).map (p.name, ·)) ++
   (Gen.qaAll.filterMap fun p => (signatureLine (qaCategory.sectionLines p)).map (p.name, ·))
 
+/-- (configuration name, variant) of every accepted name, as regenerated from the `str_to_*` tables -/
+def generatedNames : List (String × String) :=
+  (Gen.optStrTable.map fun e => (e.1, e.2.name)) ++ (Gen.vulnStrTable.map fun e => (e.1, e.2.name)) ++ (Gen.qaStrTable.map fun e => (e.1, e.2.name))
+
 /-- the table the oracle reads reports with: the reviewed one, not the regenerated one -/
 def allSignatures : List (String × String) := reviewedSignatures
 
